@@ -46,3 +46,11 @@ package utils
 //@     invariant forall a :: 0 <= a && a < len(s) ==> exists b :: 0 <= b && b < len(s) && old(s[b]) == pre(s[a])
 //@     invariant forall b :: 0 <= b && b < len(s) ==> exists a :: 0 <= a && a < len(s) && pre(s[a]) == old(s[b])
 //@     decreases len(s) - i
+
+//@ func Reverse
+//@   modifies s[_]
+//@   ensures[C20.reverse-len] len(s) == old(len(s))
+//@   loop 1:
+//@     modifies s[_]
+//@     invariant 0 <= i && i + j == len(s) - 1
+//@     decreases j - i + 1
